@@ -6,6 +6,14 @@ def main(ctx):
     ctx.level = 'other'
     cexs = run_e3(ctx, 'C08', 5 if ctx.quick else 7, ms_variants=((2, 2),) if ctx.quick else ((2, 2), (3, 2)),
                   suffix_styles=(0,), fillings=(False, True), histories=True)
+    # value level of the one step written for two maps: the cross-check applies the same rule whichever map comes first, and reads only
+    # the other map's DISPARITIES (the E3 stub contract): C07's harness with symbolic masks on both maps, incl. a second call
+    vj = [{'mod': 'vf.harness.c07', 'fn': 'xcheck_exact', 'mode': 'sym', 'args': dict(a, cap=60 if ctx.quick else 300, block=['KF-C07-outside-mismatch'])}
+          for a in (dict(W=2, dmin=-1, dmax=1), dict(W=3, dmin=-1, dmax=1, warm=True), dict(W=2, dmin=0, dmax=2, thr='1/2'))]
+    cexs_x = []
+    for r in ctx.run_jobs(vj, timeout=1500):
+        cexs_x += [c for c in ctx.absorb(r) if not c.get('known')]
+    ctx.replay_all(cexs_x, 'vf.harness.c07', 'replay')
     from . import c08v
     cexs_v = c08v.value_level(ctx)
     ctx.replay_all(cexs, MOD, 'replay')
@@ -19,5 +27,8 @@ def main(ctx):
 def replay(body):
     if body['cex'].get('harness', '').startswith('e3'):
         return _replay(body, 'C08')
+    if body['cex'].get('harness', '').startswith('c07'):
+        from .c07 import replay as r7
+        return r7(body)
     from . import c08v
     return c08v.replay(body)
